@@ -50,7 +50,7 @@ func TestMain(m *testing.M) {
 // F3: a self call that is an expression statement directly followed by the
 // function's end (or a bare `return`) is executed as a tail call, so the
 // caller returns the callee's value instead of undefined. See FINDINGS.md.
-var openFindings = map[string]bool{"F3": true}
+var openFindings = map[string]bool{"F3": false} // F3 repaired in /repo d295d0a; reproducers moved to replays/C16/fixed
 
 const f3What = "F3 self call as last expression statement runs as a tail call: caller returns the callee's value instead of undefined (vm.go OpCall tail test accepts CALL;POP;RET 0)"
 
@@ -173,9 +173,9 @@ func errKind(err error) string {
 	msg := err.Error()
 	switch {
 	case errors.Is(err, tengo.ErrStackOverflow) || strings.Contains(msg, "stack overflow"):
-		return "frames-exhausted"
+		return "stack-overflow" // tengo.ErrStackOverflow: frames, or (newer trees) the operand stack
 	case strings.Contains(msg, "index out of range"):
-		return "operand-stack-exhausted"
+		return "operand-stack-index-panic" // recovered by RunContext (older trees)
 	}
 	return "other"
 }
